@@ -58,8 +58,8 @@ pub broadcast proof fn lemma_reach_same<M: ExprMap<Option<ExprRef>>>(ctx: &Conte
 }
 
 /// path compression keeps the cache good: every changed entry points to something that was reachable from its key
-pub broadcast proof fn lemma_compress_cache_ok<M: ExprMap<Option<ExprRef>>>(ctx: &Context, m0: &M, m1: &M)
-    requires #[trigger] cache_ok(ctx, m0), #[trigger] compressed(m0, m1),
+pub broadcast proof fn lemma_compress_cache_ok<M: ExprMap<Option<ExprRef>>>(ctx: &Context, m0: &M, m1: &M, res: Option<ExprRef>)
+    requires #[trigger] cache_ok(ctx, m0), #[trigger] compressed(m0, m1, res),
     ensures cache_ok(ctx, m1),
 {
     assert forall|k: ExprRef| (#[trigger] m1.at(k)) is Some implies ctx.has(k) && same(ctx, m1.at(k)->Some_0, k) by {
@@ -69,4 +69,57 @@ pub broadcast proof fn lemma_compress_cache_ok<M: ExprMap<Option<ExprRef>>>(ctx:
     }
 }
 
-pub broadcast group group_reach { lemma_reach_refl, lemma_reach_push, lemma_reach_pop }
+/// a chain that goes on has a link
+pub broadcast proof fn lemma_reach_next_some(c: Chain, a: ExprRef, f: ExprRef)
+    requires #[trigger] reach(c, a, f), a != f,
+    ensures c(a) is Some,
+{
+    let n = choose|n: nat| reach_n(c, a, f, n);
+    assert(n > 0);
+}
+
+proof fn lemma_closed_reach_n<M: ExprMap<Option<ExprRef>>>(m: &M, a: ExprRef, k: ExprRef, n: nat)
+    requires closed(m), m.at(a) is Some, reach_n(chain_of(m), a, k, n),
+    ensures m.at(k) is Some,
+    decreases n,
+{
+    if n > 0 {
+        let v = m.at(a)->Some_0;
+        assert(chain_of(m)(a) == m.at(a));
+        lemma_closed_reach_n(m, v, k, (n - 1) as nat);
+    }
+}
+
+/// in a closed cache a chain that starts at a set key never reaches an unset one
+pub proof fn lemma_closed_reach<M: ExprMap<Option<ExprRef>>>(m: &M, a: ExprRef, k: ExprRef)
+    requires closed(m), m.at(a) is Some, reach(chain_of(m), a, k),
+    ensures m.at(k) is Some,
+{
+    let n = choose|n: nat| reach_n(chain_of(m), a, k, n);
+    lemma_closed_reach_n(m, a, k, n);
+}
+
+/// in a closed cache the chain from a set key never hits an unset key
+pub broadcast proof fn lemma_closed_reach_unset<M: ExprMap<Option<ExprRef>>>(m: &M, a: ExprRef)
+    requires #[trigger] closed(m), m.at(a) is Some, #[trigger] hits_unset(chain_of(m), a),
+    ensures false,
+{
+    let k = choose|k: ExprRef| #[trigger] reach(chain_of(m), a, k) && chain_of(m)(k) is None;
+    lemma_closed_reach(m, a, k);
+}
+
+pub broadcast proof fn lemma_hits_unset_self(c: Chain, key: ExprRef)
+    requires c(key) is None,
+    ensures #[trigger] hits_unset(c, key),
+{
+    assert(reach_n(c, key, key, 0));
+    assert(reach(c, key, key));
+}
+
+pub broadcast proof fn lemma_hits_unset_at(c: Chain, key: ExprRef, k: ExprRef)
+    requires #[trigger] reach(c, key, k), c(k) is None,
+    ensures #[trigger] hits_unset(c, key),
+{
+}
+
+pub broadcast group group_reach { lemma_reach_refl, lemma_reach_push, lemma_reach_pop, lemma_reach_next_some, lemma_hits_unset_self, lemma_hits_unset_at }
